@@ -1955,3 +1955,193 @@ def recovery_unit():
 
 
 ALL.append(recovery_unit)
+
+
+# ----------------------------------------------------------------------------- QueueProcessorMixin._handle_message (C09, C02)
+PM = "stabilize.queue.processor.mixins:QueueProcessorMixin"
+
+
+def _processor_registry():
+    from pyvc.values import SBool, SModel, fresh_bool
+
+    reg = run_task_registry()
+
+    def get_dedup(I, a, k):
+        d = I.st.ghost.get("dedup_obj")
+        if d is not None:
+            return d
+        d = T.new_model_obj(I, "BloomDeduplicator", "dedup")
+        rec = I.st.objs[d.oid]
+        state = {"authoritative": fresh_bool("bloom_authoritative")}
+        rec.meta["state"] = state
+
+        def maybe_seen(I2, a2, k2):
+            b = fresh_bool("bloom_maybe_seen")
+            I2.st.emit("bloom", op="maybe_seen", id=a2[0], result=b)
+            return SBool(b)
+
+        def should_reset(I2, a2, k2):
+            return SBool(fresh_bool("bloom_should_reset"))
+
+        def reset(I2, a2, k2):
+            # contract of BloomDeduplicator.reset: authority is revoked
+            state["authoritative"] = FALSE
+            I2.st.emit("bloom", op="reset")
+            return SNone
+
+        def hydrate(I2, a2, k2):
+            state["authoritative"] = TRUE
+            I2.st.emit("bloom", op="hydrate", ids=a2[0])
+            return SInt_(0)
+
+        def mark_seen(I2, a2, k2):
+            I2.st.emit("bloom", op="mark_seen", id=a2[0])
+            return SNone
+
+        rec.fields["maybe_seen"] = SModel(maybe_seen, None, "maybe_seen")
+        rec.fields["should_reset"] = SModel(should_reset, None, "should_reset")
+        rec.fields["reset"] = SModel(reset, None, "reset")
+        rec.fields["hydrate"] = SModel(hydrate, None, "hydrate")
+        rec.fields["mark_seen"] = SModel(mark_seen, None, "mark_seen")
+        rec.fields["expected_items"] = SInt_(z3.Int("bloom_capacity"))
+        rec.fields["fill_ratio"] = SInt_(0)
+        I.st.ghost["dedup_obj"] = d
+        return d
+
+    reg.contracts["stabilize.queue.dedup:get_deduplicator"] = get_dedup
+    def authoritative(I, obj):
+        v = I.st.objs[obj.oid].meta["state"]["authoritative"]
+        I.st.emit("bloom", op="authoritative", result=v)
+        return SBool(v)
+
+    reg.props[("BloomDeduplicator", "authoritative")] = authoritative
+
+    def is_processed(I, a, k):
+        b = fresh_bool("is_processed")
+        I.st.emit("store_query", op="is_message_processed", id=a[1] if len(a) > 1 else k.get("message_id"), result=b,
+                  authoritative_then=I.st.objs[I.st.ghost["dedup_obj"].oid].meta["state"]["authoritative"] if I.st.ghost.get("dedup_obj") else None)
+        return SBool(b)
+
+    def mark_processed(I, a, k):
+        I.st.emit("standalone", op="mark_message_processed", args=list(a[1:]), kwargs=dict(k), in_txn=None)
+        return SNone
+
+    def get_ids(I, a, k):
+        from pyvc.typesys import fresh_value
+
+        ids = fresh_value(I.st, I.typer, ("list", ("str",)), "processed_ids", det=True)
+        I.st.emit("store_query", op="get_processed_message_ids", limit=k.get("limit", a[1] if len(a) > 1 else SNone), result=ids)
+        if I.st.choose("ids_unavailable"):
+            return SNone
+        return ids
+
+    reg.methods[("WorkflowStore", "is_message_processed")] = is_processed
+    reg.methods[("WorkflowStore", "mark_message_processed")] = mark_processed
+    reg.methods[("WorkflowStore", "get_processed_message_ids")] = get_ids
+    return reg
+
+
+def SInt_(x):
+    from pyvc.values import SInt
+
+    return SInt(z3.IntVal(x) if isinstance(x, int) else x)
+
+
+def _make_processor(ctx):
+    from pyvc.values import SModel, fresh_bool
+
+    I = ctx.I
+    ci = I.index.modules["stabilize.queue.processor.mixins"].classes["QueueProcessorMixin"]
+    oid = I.st.new_id()
+    rec = ObjRec(ci.name, ci, {}, {"name": "processor", "symbolic": True})
+    I.st.objs[oid] = rec
+    store = T.StoreModel.make_repository(I)
+    rec.fields["_store"] = SOpt(store, z3.Bool("store_is_none"))
+    rec.fields["queue"] = T.StoreModel.make_queue(I)
+    rec.fields["config"] = T.new_symbolic(I, "QueueProcessorConfig", "config")
+    handler = T.new_model_obj(I, "MessageHandler", "registered_handler")
+
+    def handle(I2, a2, k2):
+        I2.st.emit("handler_invoked", message=a2[0])
+        if I2.st.choose("handler_raises"):
+            from .assumed_runtask import new_exception
+
+            raise PyRaise_(new_exception(I2, "handler_error"))
+        return SNone
+
+    I.st.objs[handler.oid].fields["handle"] = SModel(handle, None, "handle")
+    handlers_ = T.new_model_obj(I, "dict", "_handlers")
+    I.st.objs[handlers_.oid].fields["get"] = SModel(lambda I2, a2, k2: SOpt(handler, fresh_bool("no_handler")), None, "get")
+    rec.fields["_handlers"] = handlers_
+    return SObj(oid)
+
+
+def _handle_message_post(ctx):
+    """C09/_handle_message: with deduplication on and a message id, the handler runs only after the durable processed
+    check was evaluated false for that id -- unless the negative cache is trusted, the filter is authoritative and it did
+    not report the id; a processed message is acknowledged without running the handler; after a normal return the id is
+    told to the filter; after a reset inside the call, authority stays revoked until a complete re-hydration."""
+    I = ctx.I
+    msg = ctx.args["message"]
+    cfg = I.getattr(ctx.self_val, "config")
+    dedup_on = I.ops.truthy(I.getattr(cfg, "enable_deduplication"))
+    mid = I.getattr(msg, "message_id")
+    has_id = z3.Not(I.ops.is_none(mid))
+    invoked = [e for e in ctx.st.effects if e.kind == "handler_invoked"]
+    qs = [e for e in ctx.st.effects if e.kind == "store_query" and e.data["op"] == "is_message_processed"]
+    bl = [e for e in ctx.st.effects if e.kind == "bloom"]
+    goals = [("at-most-once", z3.BoolVal(len(invoked) <= 1))]
+    store_none = z3.Bool("store_is_none")
+    if invoked:
+        checked_false = z3.Or(*[z3.And(I.ops.eq(q.data["id"], mid), z3.Not(q.data["result"])) for q in qs]) if qs else FALSE
+        ms = [e for e in bl if e.data["op"] == "maybe_seen"]
+        trust = I.ops.truthy(I.call(__import__("pyvc.values", fromlist=["SBuiltin"]).SBuiltin("getattr"), [cfg, I.ops.lit("dedup_trust_negative_cache"), SBool_(False)], {}))
+        auth0 = z3.Bool("bloom_authoritative!0")
+        au = [e for e in bl if e.data["op"] == "authoritative"]
+        skipped_ok = z3.And(trust, z3.Or(*[z3.Not(e.data["result"]) for e in ms]) if ms else FALSE,
+                            z3.Or(*[e.data["result"] for e in au]) if au else FALSE)
+        goals.append(("runs-only-if-not-processed", z3.Implies(z3.And(dedup_on, has_id, z3.Not(store_none)), z3.Or(checked_false, skipped_ok))))
+        # when the durable check was skipped the filter must have been authoritative at that moment
+        d = I.st.ghost.get("dedup_obj")
+        if d is not None and not qs:
+            pos = ctx.st.effects.index(invoked[0])
+            goals.append(("skip-needs-authority", z3.Implies(z3.And(dedup_on, has_id, z3.Not(store_none)), I.st.objs[d.oid].meta.get("auth_at_check", TRUE))))
+    for q in qs:
+        if not invoked and ctx.exc is None:
+            goals.append(("processed-means-no-handler", TRUE))
+    if ctx.exc is None and invoked:
+        marks = [e for e in bl if e.data["op"] == "mark_seen"]
+        goals.append(("told-to-filter-after-handling", z3.Implies(z3.And(dedup_on, has_id), z3.BoolVal(bool(marks)) if not marks else
+                                                                  z3.Or(*[I.ops.eq(e.data["id"], mid) for e in marks]))))
+    resets = [i for i, e in enumerate(ctx.st.effects) if e.kind == "bloom" and e.data["op"] == "reset"]
+    for r in resets:
+        hyd = [e for e in ctx.st.effects[r + 1:] if e.kind == "bloom" and e.data["op"] == "hydrate"]
+        for h in hyd:
+            q = [e for e in ctx.st.effects[r + 1:] if e.kind == "store_query" and e.data["op"] == "get_processed_message_ids"]
+            ok = FALSE
+            if q:
+                lim = q[0].data["limit"]
+                cap = z3.Int("bloom_capacity")
+                ok = z3.And(I.ops.as_int(lim) == cap + 1, I.ops.list_len(h.data["ids"]) <= cap,
+                            z3.BoolVal(h.data["ids"].lid == q[0].data["result"].lid))
+            goals.append(("hydrates-only-with-complete-id-set", ok))
+    return goals
+
+
+def SBool_(b):
+    from pyvc.values import SBool
+
+    return SBool(z3.BoolVal(b))
+
+
+def handle_message_unit():
+    from pyvc.verify import Unit
+    from .common import STATUS_NAMES
+
+    return Unit(prop="*", name="L2/QueueProcessorMixin._handle_message", func=PM + "._handle_message",
+                params=[("message", ("obj", "Message"))], self_type=_make_processor, names=STATUS_NAMES, registry=_processor_registry(),
+                replayable=False,
+                obligations=[Obl("C09/_handle_message", _handle_message_post, when="any"), Obl("C02/dedup/_handle_message", _handle_message_post, when="any")])
+
+
+ALL.append(handle_message_unit)
